@@ -332,6 +332,14 @@ def ob_choi_to_kraus(din, dout, kind, tol=1e-9):
                 v = (rng.integers(-4, 5, size=(n, 1)) + 1j * rng.integers(-4, 5, size=(n, 1))) / 4.0
                 J = J + sg * (v @ v.conj().T)
             out.append({"J": J})
+        # an eigenvalue just above the threshold next to eigenvalues of order one and of either sign (round-6 seed: the filter that
+        # builds the operators and the filter that supplies their signs disagreeing about it), in a rotated eigenbasis as well
+        for mags in ([3.0, -1.0, -2e-9], [0.5, -0.25, 3e-9], [40.0, -2.5e-9, -8.0]):
+            D = np.diag(np.array(mags + [0.0] * (n - 3), dtype=complex))
+            out.append({"J": D})
+            rng = np.random.default_rng(7)
+            Q, _ = np.linalg.qr(rng.normal(size=(n, n)) + 1j * rng.normal(size=(n, n)))
+            out.append({"J": Q @ D @ Q.conj().T})
         return out
     return Obligation("choi_to_kraus.reproduces_choi_matrix_modulo_dropped_terms", cfg, build, call, oracle, assume=assume,
                       max_paths=800, tv=False, abs_fork=True, weight=50, contracts=("eigh", "svd"), witness=witness)
